@@ -225,3 +225,283 @@ Proof.
     { rewrite <- traverse_dfs_snd, E, map_app. reflexivity. }
     destruct (cfirst_split _ [] (cfirst_post_sub (Node l r) []) _ _ _ E' q Hq) as [H|[[]|H]]; auto.
 Qed.
+
+Lemma is_node_in_post_sub x : is_node x -> In x (post_sub x).
+Proof. destruct x as [k|l r]; [intros []|intros _; apply node_in_post_sub]. Qed.
+
+(* =====================  the dictionary of temporaries  ===================== *)
+Lemma leqb_iff (a : list nat) : forall b, list_eqb Nat.eqb a b = true <-> a = b.
+Proof.
+  induction a as [|x a IH]; intros [|y b]; cbn [list_eqb].
+  - split; reflexivity.
+  - split; intros H; discriminate H.
+  - split; intros H; discriminate H.
+  - rewrite andb_true_iff, Nat.eqb_eq, IH. split.
+    + intros [-> ->]. reflexivity.
+    + intros E. injection E as -> ->. split; reflexivity.
+Qed.
+
+Lemma tget_tset_same k v tm : tget k (tset k v tm) = v.
+Proof. unfold tset. cbn [tget]. rewrite (proj2 (leqb_iff k k) eq_refl). reflexivity. Qed.
+Lemma tget_tdel_other k k' tm : k <> k' -> tget k (tdel k' tm) = tget k tm.
+Proof.
+  intros Hne. induction tm as [|[k1 v] tm IH]; cbn [tdel tget]; [reflexivity|].
+  destruct (list_eqb Nat.eqb k1 k') eqn:E1.
+  - apply leqb_iff in E1. subst k1. destruct (list_eqb Nat.eqb k' k) eqn:E2; [|reflexivity].
+    apply leqb_iff in E2. congruence.
+  - cbn [tget]. destruct (list_eqb Nat.eqb k1 k); [reflexivity|apply IH].
+Qed.
+Lemma tget_tset_other k k' v tm : k <> k' -> tget k (tset k' v tm) = tget k tm.
+Proof.
+  intros Hne. unfold tset. cbn [tget]. destruct (list_eqb Nat.eqb k' k) eqn:E.
+  - apply leqb_iff in E. congruence.
+  - apply tget_tdel_other, Hne.
+Qed.
+
+Section Run.
+Variable n : net.
+Variable sl : list slinfo.
+Variable arr : nat -> ptensor.
+Variable e0 : env.
+Notation dim := (dim n).
+Notation exec := (exec_instr n e0).
+
+(* value stored by the tensordot (+ transpose) instruction of node (Node l r) *)
+Definition tdot_val (b : bool) (l r : tree) (L R : sarr) : sarr :=
+  let X := tdot L R (fst (tensordot_axes n sl (Node l r))) (snd (tensordot_axes n sl (Node l r))) in
+  match tensordot_perm n sl b (Node l r) with Some pm => transpose X pm | None => X end.
+(* value stored by the einsum instruction of node (Node l r) *)
+Definition einsum_val (b : bool) (l r : tree) (L R : sarr) : sarr :=
+  (map dim (inds n sl b (Node l r)),
+   einsum2 n e0 (inds_sub n sl l) (inds_sub n sl r) (inds n sl b (Node l r)) (snd L) (snd R)).
+
+(* ---------- phase 1: the pre-processing instructions (one per simplifiable leaf) ---------- *)
+Definition pre_of (k : nat) : list instr :=
+  match leaf_preproc n sl k with Some (term, kept) => [IPre k term kept] | None => [] end.
+Definition pre_one (k : nat) (sa : sarr) : sarr :=
+  match leaf_preproc n sl k with
+  | Some (term, kept) => (map dim kept, einsum1 n e0 term kept (snd sa))
+  | None => sa
+  end.
+
+Lemma pre_fold ks : NoDup ks -> forall tm k,
+  tget [k] (fold_left exec (flat_map pre_of ks) tm) =
+  if memb k ks then pre_one k (tget [k] tm) else tget [k] tm.
+Proof.
+  induction ks as [|x ks IH]; intros ND tm k; [reflexivity|].
+  inversion ND as [|? ? Hn ND']; subst.
+  change (memb k (x :: ks)) with (Nat.eqb k x || memb k ks)%bool.
+  cbn [flat_map]. rewrite fold_left_app, (IH ND').
+  assert (H1 : forall k', tget [k'] (fold_left exec (pre_of x) tm) =
+                          if Nat.eqb k' x then pre_one x (tget [x] tm) else tget [k'] tm).
+  { intros k'. unfold pre_of, pre_one. destruct (leaf_preproc n sl x) as [[term kept]|]; cbn [fold_left exec_instr].
+    - destruct (Nat.eqb_spec k' x) as [->|Hne].
+      + apply tget_tset_same.
+      + apply tget_tset_other. intros E. injection E as E. exact (Hne E).
+    - destruct (Nat.eqb_spec k' x) as [->|Hne]; reflexivity. }
+  rewrite H1. destruct (Nat.eqb_spec k x) as [->|Hne]; cbn [orb].
+  - rewrite (proj2 (memb_false x ks) Hn). reflexivity.
+  - reflexivity.
+Qed.
+
+Lemma tget_init ks k : In k ks ->
+  tget [k] (map (fun k => ([k], (map dim (term_sl n sl k), sliced_arr n sl arr e0 k))) ks) =
+  (map dim (term_sl n sl k), sliced_arr n sl arr e0 k).
+Proof.
+  induction ks as [|x ks IH]; [intros []|]. intros Hin. cbn [map tget list_eqb].
+  destruct (Nat.eqb_spec x k) as [->|Hne]; cbn [andb]; [reflexivity|].
+  apply IH. destruct Hin as [E|H]; [congruence|exact H].
+Qed.
+
+Lemma leaf_shape_plain k : leaf_preproc n sl k = None -> lkeys (leaf_legs n sl k) = term_sl n sl k.
+Proof.
+  unfold leaf_preproc, leaf_legs. destruct (leaf_simplifiable n sl k) eqn:E; [discriminate|]. intros _.
+  unfold leaf_simplifiable in E. apply orb_false_iff in E. destruct E as [E _].
+  apply negb_false_iff, Nat.eqb_eq in E. apply legs_of_term_keys_nodup, E.
+Qed.
+
+(* after the pre-instructions every leaf holds its (pre-processed, sliced) tensor *)
+Lemma leaves_ready t k : NoDup (leaves t) -> In k (leaves t) ->
+  tget [k] (fold_left exec (pre_instrs n sl t) (init_temps n sl arr e0 t)) =
+  (map dim (lkeys (leaf_legs n sl k)), leaf_tensor n sl arr e0 k).
+Proof.
+  intros ND Hk. change (pre_instrs n sl t) with (flat_map pre_of (leaves t)).
+  rewrite (pre_fold _ ND), (proj2 (memb_In k (leaves t)) Hk). unfold init_temps.
+  rewrite (tget_init _ _ Hk). unfold pre_one, leaf_tensor.
+  destruct (leaf_preproc n sl k) as [[term kept]|] eqn:E.
+  - assert (Ek : kept = lkeys (leaf_legs n sl k)).
+    { unfold leaf_preproc in E. destruct (leaf_simplifiable n sl k); [|discriminate].
+      injection E as _ E2. symmetry; exact E2. }
+    rewrite Ek. reflexivity.
+  - rewrite (leaf_shape_plain k E). reflexivity.
+Qed.
+
+Lemma einsum2_ext li ri pi (L L' R R' : ptensor) :
+  (forall e : env, L (map e li) = L' (map e li)) -> (forall e : env, R (map e ri) = R' (map e ri)) ->
+  forall pos, einsum2 n e0 li ri pi L R pos = einsum2 n e0 li ri pi L' R' pos.
+Proof. intros HL HR pos. unfold einsum2. apply sum_over_ext. intros e. rewrite HL, HR. reflexivity. Qed.
+
+(* ---------- phase 2: the contractions, in any valid order ---------- *)
+Section Loop.
+Variable pe : bool.                                  (* prefer_einsum *)
+Variable PosOK : list nat -> list nat -> Prop.       (* shape -> position -> "position considered" *)
+Hypothesis PosOK_map : forall (e : env) (li : list ix), PosOK (map dim li) (map e li).
+Variable t : tree.
+Hypothesis Ht : is_node t.
+Hypothesis ND : NoDup (leaves t).
+
+Definition sa_eq (a b : sarr) : Prop :=
+  fst a = fst b /\ forall pos, PosOK (fst a) pos -> snd a pos = snd b pos.
+Lemma sa_eq_refl a : sa_eq a a.
+Proof. split; reflexivity. Qed.
+Lemma sa_eq_trans a b c : sa_eq a b -> sa_eq b c -> sa_eq a c.
+Proof.
+  intros [H1 H2] [H3 H4]. split; [congruence|]. intros pos Hp.
+  rewrite (H2 pos Hp). apply H4. rewrite <- H1. exact Hp.
+Qed.
+
+Hypothesis tdot_step_ok : pe = false -> forall b l r (L R : sarr),
+  In (Node l r) (post_sub t) -> (b = true <-> Node l r = t) ->
+  can_dot n sl b (Node l r) = true ->
+  fst L = map dim (inds_sub n sl l) -> fst R = map dim (inds_sub n sl r) ->
+  sa_eq (tdot_val b l r L R) (einsum_val b l r L R).
+
+(* what the temporaries must hold for node q *)
+Definition expv (q : tree) : sarr :=
+  if tree_eq_dec q t then (map dim (lkeys (root_legs n sl)), run_root n sl arr e0 t)
+  else (map dim (inds_sub n sl q), run_sub n sl arr e0 q).
+
+Lemma expv_child p q : In p (subs t) -> child q p ->
+  expv q = (map dim (inds_sub n sl q), run_sub n sl arr e0 q).
+Proof.
+  intros Hp Hc. unfold expv. destruct (tree_eq_dec q t) as [E|_]; [|reflexivity]. exfalso.
+  apply child_nleaves in Hc. apply subs_nleaves in Hp. rewrite E in Hc. lia.
+Qed.
+
+(* invariant: every leaf and every processed node whose parent is not yet processed is
+   present with the recursive value *)
+Definition Inv (done : list tree) (tm : temps) : Prop :=
+  forall q, In q (subs t) -> (is_leaf q \/ In q done) -> (forall p, In p done -> ~ child q p) ->
+  sa_eq (tget (leaves q) tm) (expv q).
+
+Lemma einsum_val_ok b l r L R : In (Node l r) (subs t) -> (b = true <-> Node l r = t) ->
+  sa_eq L (expv l) -> sa_eq R (expv r) -> sa_eq (einsum_val b l r L R) (expv (Node l r)).
+Proof.
+  intros Hp Hb HL HR.
+  rewrite (expv_child (Node l r) l Hp (or_introl eq_refl)) in HL.
+  rewrite (expv_child (Node l r) r Hp (or_intror eq_refl)) in HR.
+  destruct HL as [HL1 HL2], HR as [HR1 HR2]. cbn [fst snd] in HL1, HL2, HR1, HR2.
+  assert (HL3 : forall e : env, snd L (map e (inds_sub n sl l)) = run_sub n sl arr e0 l (map e (inds_sub n sl l))).
+  { intros e. apply HL2. rewrite HL1. apply PosOK_map. }
+  assert (HR3 : forall e : env, snd R (map e (inds_sub n sl r)) = run_sub n sl arr e0 r (map e (inds_sub n sl r))).
+  { intros e. apply HR2. rewrite HR1. apply PosOK_map. }
+  unfold expv, einsum_val. destruct (tree_eq_dec (Node l r) t) as [E|NE].
+  - assert (Eb : b = true) by (apply Hb; exact E). rewrite Eb, <- E. cbn [inds run_root].
+    split; [reflexivity|]. cbn [fst snd]. intros pos _. apply einsum2_ext; assumption.
+  - destruct b; [exfalso; apply NE, Hb; reflexivity|]. cbn [inds run_sub].
+    split; [reflexivity|]. cbn [fst snd]. intros pos _. apply einsum2_ext; assumption.
+Qed.
+
+Lemma step_store done tm l r v : In (Node l r) (subs t) -> sa_eq v (expv (Node l r)) ->
+  Inv done tm ->
+  Inv (done ++ [Node l r]) (tset (leaves (Node l r)) v (tdel (leaves r) (tdel (leaves l) tm))).
+Proof.
+  intros Hp Hv HI q Hq Hld Hnp.
+  destruct (tree_eq_dec q (Node l r)) as [->|Hne].
+  - rewrite tget_tset_same. exact Hv.
+  - assert (Hnc : ~ child q (Node l r)) by (apply Hnp, in_or_app; right; left; reflexivity).
+    assert (Hl : In l (subs t)) by (apply (child_in_subs t l (Node l r) Hp); left; reflexivity).
+    assert (Hr : In r (subs t)) by (apply (child_in_subs t r (Node l r) Hp); right; reflexivity).
+    rewrite tget_tset_other by (intros E; apply Hne, (subs_inj t ND q (Node l r) Hq Hp E)).
+    rewrite tget_tdel_other by (intros E; apply Hnc; right; apply (subs_inj t ND q r Hq Hr E)).
+    rewrite tget_tdel_other by (intros E; apply Hnc; left; apply (subs_inj t ND q l Hq Hl E)).
+    apply HI; [exact Hq| |].
+    + destruct Hld as [H|H]; [left; exact H|]. apply in_app_or in H.
+      destruct H as [H|[H|[]]]; [right; exact H|]. exfalso. apply Hne. symmetry; exact H.
+    + intros p' Hp'. apply Hnp, in_or_app. left; exact Hp'.
+Qed.
+
+Lemma step_instr done tm b p : In p (post_sub t) -> ~ In p done -> incl done (post_sub t) ->
+  (b = true <-> p = t) -> (forall q, child q p -> is_leaf q \/ In q done) ->
+  Inv done tm -> Inv (done ++ [p]) (fold_left exec (node_instr n sl pe (b, p)) tm).
+Proof.
+  intros Hp Hnd Hinc Hb Hch HI. pose proof Hp as Hpost. apply post_sub_iff in Hp. destruct Hp as [Hps Hn].
+  destruct p as [k|l r]; [destruct Hn|].
+  assert (Hl : In l (subs t)) by (apply (child_in_subs t l (Node l r) Hps); left; reflexivity).
+  assert (Hr : In r (subs t)) by (apply (child_in_subs t r (Node l r) Hps); right; reflexivity).
+  assert (Hpar : forall q, child q (Node l r) -> forall p', In p' done -> ~ child q p').
+  { intros q Hq p' Hp' Hc. apply Hnd.
+    assert (E : p' = Node l r).
+    { apply (unique_parent t ND q p' (Node l r)); [|exact Hps|exact Hc|exact Hq].
+      apply post_sub_iff, Hinc, Hp'. }
+    rewrite <- E. exact Hp'. }
+  assert (HL : sa_eq (tget (leaves l) tm) (expv l)).
+  { apply HI; [exact Hl|apply Hch; left; reflexivity|apply Hpar; left; reflexivity]. }
+  assert (HR : sa_eq (tget (leaves r) tm) (expv r)).
+  { apply HI; [exact Hr|apply Hch; right; reflexivity|apply Hpar; right; reflexivity]. }
+  pose proof (einsum_val_ok b l r _ _ Hps Hb HL HR) as Hev.
+  unfold node_instr. cbn [snd fst].
+  destruct (pe || negb (can_dot n sl b (Node l r)))%bool eqn:E; cbn [fold_left exec_instr].
+  - apply (step_store done tm l r (einsum_val b l r (tget (leaves l) tm) (tget (leaves r) tm)) Hps Hev HI).
+  - apply orb_false_iff in E. destruct E as [Epe Ecd]. apply negb_false_iff in Ecd.
+    apply (step_store done tm l r (tdot_val b l r (tget (leaves l) tm) (tget (leaves r) tm)) Hps); [|exact HI].
+    apply (sa_eq_trans _ (einsum_val b l r (tget (leaves l) tm) (tget (leaves r) tm))); [|exact Hev].
+    apply (tdot_step_ok Epe b l r _ _ Hpost Hb Ecd).
+    + destruct HL as [HL1 _]. rewrite HL1, (expv_child (Node l r) l Hps (or_introl eq_refl)). reflexivity.
+    + destruct HR as [HR1 _]. rewrite HR1, (expv_child (Node l r) r Hps (or_intror eq_refl)). reflexivity.
+Qed.
+
+Definition okord (o : list (bool * tree)) : Prop :=
+  incl (map snd o) (post_sub t) /\ NoDup (map snd o)
+  /\ (forall b q, In (b, q) o -> (b = true <-> q = t))
+  /\ (forall pre b p suf, o = pre ++ (b, p) :: suf ->
+        forall q, child q p -> is_leaf q \/ In q (map snd pre)).
+Lemma valid_okord o : valid_order t o -> okord o.
+Proof.
+  intros (H1 & H2 & H3). split; [|split; [|split]]; [| |exact H2|exact H3].
+  - intros x Hx. apply (Permutation_in _ H1 Hx).
+  - apply (Permutation_NoDup (Permutation_sym H1)), NoDup_post_sub, ND.
+Qed.
+
+Lemma loop rest : forall done tm, okord (done ++ rest) -> Inv (map snd done) tm ->
+  Inv (map snd (done ++ rest)) (fold_left exec (flat_map (node_instr n sl pe) rest) tm).
+Proof.
+  induction rest as [|[b p] rest IH]; intros done tm Hok HI.
+  - rewrite app_nil_r. exact HI.
+  - assert (Eo : done ++ (b, p) :: rest = (done ++ [(b, p)]) ++ rest) by (rewrite <- app_assoc; reflexivity).
+    cbn [flat_map]. rewrite fold_left_app, Eo. apply IH; [rewrite <- Eo; exact Hok|].
+    destruct Hok as (H1 & H2 & H3 & H4). rewrite map_app. cbn [map snd].
+    rewrite map_app in H1, H2. cbn [map snd] in H1, H2.
+    apply step_instr.
+    + apply H1, in_or_app. right; left; reflexivity.
+    + apply NoDup_remove_2 in H2. intros Hin. apply H2, in_or_app. left; exact Hin.
+    + intros x Hx. apply H1, in_or_app. left; exact Hx.
+    + apply (H3 b p), in_or_app. right; left; reflexivity.
+    + apply (H4 done b p rest eq_refl).
+    + exact HI.
+Qed.
+
+Theorem exec_order_gen order : valid_order t order ->
+  sa_eq (exec_program n sl arr e0 (program n sl pe t order) t)
+        (map dim (lkeys (root_legs n sl)), run_root n sl arr e0 t).
+Proof.
+  intros Hv. unfold exec_program, program. rewrite fold_left_app.
+  set (tm0 := fold_left exec (pre_instrs n sl t) (init_temps n sl arr e0 t)).
+  assert (HI0 : Inv [] tm0).
+  { intros q Hq [Hl|[]] _. destruct q as [k|a b]; [|destruct Hl]. cbn [leaves]. unfold tm0.
+    rewrite (leaves_ready t k ND) by (apply (subs_leaves t _ Hq); left; reflexivity).
+    unfold expv. destruct (tree_eq_dec (Leaf k) t) as [E|_].
+    - pose proof Ht as Ht'. rewrite <- E in Ht'. destruct Ht'.
+    - apply sa_eq_refl. }
+  pose proof (loop order [] tm0 (valid_okord _ Hv) HI0) as HI. cbn [app map] in HI.
+  specialize (HI t (subs_self t)). unfold expv in HI.
+  destruct (tree_eq_dec t t) as [_|NE]; [|exfalso; apply NE; reflexivity].
+  destruct Hv as (Hperm & _). apply HI.
+  - right. apply (Permutation_in _ (Permutation_sym Hperm)), is_node_in_post_sub, Ht.
+  - intros p Hp Hc. apply child_nleaves in Hc.
+    apply (Permutation_in _ Hperm), post_sub_iff in Hp. destruct Hp as [Hp _].
+    apply subs_nleaves in Hp. lia.
+Qed.
+End Loop.
+End Run.
+Check exec_order_gen.
